@@ -10,6 +10,7 @@
 //! the encoder is instantiated at the two concrete element types through a macro.
 use scverif::*;
 use smartcore::linalg::naive::dense_matrix::DenseMatrix;
+use smartcore::linalg::BaseMatrix;
 use smartcore::preprocessing::categorical::{OneHotEncoder, OneHotEncoderParams};
 use smartcore::preprocessing::series_encoder::CategoryMapper;
 use std::collections::HashMap;
@@ -62,8 +63,28 @@ macro_rules! encode_impl {
                 Some(m) => m,
                 None => &a,
             };
+            // transform is a function of (encoder, matrix): an earlier call with another matrix — here the narrowest
+            // prefix of the fit matrix that still holds every categorical column, or the matrix without its last row —
+            // must leave no trace
+            let index = c.index;
+            if index % 5 == 3 {
+                let (r, cc) = a.shape();
+                let wmin = idx.iter().cloned().max().map(|m| m + 1).unwrap_or(cc).min(cc);
+                let other = if index % 2 == 1 && wmin < cc { a.slice(0..r, 0..wmin) } else { a.slice(0..(r - 1).max(1), 0..cc) };
+                let _ = scverif::runner::guard(|| enc.transform(&other).map(|_| ()));
+                c.bucket("another-transform-first");
+            }
             match c.must("OneHotEncoder::transform", || enc.transform(target))? {
-                Ok(m) => Some(Out::Done(from_m(&m))),
+                Ok(m) => {
+                    if index % 5 == 4 {
+                        if let Some(Ok(m2)) = c.must("OneHotEncoder::transform(again)", || enc.transform(target)) {
+                            let (g1, g2) = (from_m(&m), from_m(&m2));
+                            let same = g1.r == g2.r && g1.c == g2.c && g1.d.iter().zip(g2.d.iter()).all(|(x, y)| x.to_bits() == y.to_bits());
+                            c.check("transform.repeatable", same, "", || "two transform calls of one encoder on one matrix differ".to_string());
+                        }
+                    }
+                    Some(Out::Done(from_m(&m)))
+                }
                 Err(e) => Some(Out::TransformErr(format!("{}", e))),
             }
         }
@@ -547,12 +568,20 @@ fn random_layout(rng: &mut Rng, p: usize, force_cat: bool) -> (Vec<usize>, &'sta
 }
 
 fn random_input(c: &mut Case, w: W, force_cat: bool) -> (Input, Vec<usize>, &'static str) {
-    let n = if c.rng.bool(0.1) { c.rng.us(1, 3) } else { c.rng.us(1, 40) };
+    let big = scverif::big() > 0;
+    let n = if big {
+        c.rng.us(300, 600)
+    } else if c.rng.bool(0.1) {
+        c.rng.us(1, 3)
+    } else {
+        c.rng.us(1, 40)
+    };
     let p = if c.rng.bool(0.1) { 1 } else { c.rng.us(1, 10) };
     let (cat, lname) = random_layout(&mut c.rng, p, force_cat);
     let mut ks = vec![0usize; p];
     for &j in &cat {
-        ks[j] = c.rng.us(1, 6).min(n);
+        // the `large` family: 65..280 categories in a column
+        ks[j] = if big && c.rng.bool(0.6) { c.rng.us(65, 280) } else { c.rng.us(1, 6).min(n) };
     }
     let x = build_input(&mut c.rng, w, n, &ks, 2, 2);
     let mut idx = cat.clone();
@@ -965,9 +994,12 @@ fn mapper(c: &mut Case) {
         1 => 1,
         _ => c.rng.us(2, 60),
     };
-    let a = c.rng.us(1, 12);
-    let ty = c.rng.below(4);
-    let skew = c.rng.bool(0.3);
+    // the `large` family: 65..300 categories (more than a machine word has bits), every one of them present
+    let big = scverif::big() > 0;
+    let a = if big { c.rng.us(65, 300) } else { c.rng.us(1, 12) };
+    let len = if big { c.rng.us(a, 3 * a) } else { len };
+    let ty = if big { 3 } else { c.rng.below(4) };
+    let skew = !big && c.rng.bool(0.3);
     let draw = |rng: &mut Rng, a: usize| if skew && rng.bool(0.6) { 0 } else { rng.below(a) };
     match ty {
         0 => {
@@ -1025,6 +1057,16 @@ fn mapper(c: &mut Case) {
     }
 }
 
+/// encoders over columns with 65..280 categories on 300..600 rows, mappers over 65..300 categories (beyond the ordinary
+/// bounds of 6 and 12)
+fn large(c: &mut Case) {
+    let g = c.index % 2;
+    scverif::with_big(1, || match g {
+        0 => random(c),
+        _ => mapper(c),
+    })
+}
+
 fn main() {
     assert_eq!(orders_table().len() as u64, N_ORDERS, "size of the enumerated (subset, ordering, category counts) table");
     runner::main(Spec {
@@ -1046,6 +1088,7 @@ fn main() {
             Family::new("noninteger", 4000, 50000, noninteger),
             Family::new("nearinteger", 2000, 25000, nearinteger),
             Family::new("mapper", 5000, 60000, mapper),
+            Family::new("large", 200, 4000, large),
         ],
         min_nontrivial: 8000,
         case_timeout_s: 120,
